@@ -498,6 +498,57 @@ def r24(ctx: Ctx) -> RuleReport:
     return rep
 
 
+def argparse_calls(ctx: Ctx, f: FuncInfo) -> List[ast.Call]:
+    """The add_argument calls of f; a call inside `for a, b in <constant table>:` is written out once per row with the loop names replaced
+    by the constants of that row (the table is folded from the source, it is not executed)."""
+    import copy
+    pm = ctx.repo.parent_map(f.node)
+    out = []
+    for n in walk_local(f.node):
+        if not (isinstance(n, ast.Call) and isinstance(n.func, ast.Attribute) and n.func.attr == 'add_argument'):
+            continue
+        loops = []
+        x = n
+        while id(x) in pm:
+            x = pm[id(x)]
+            if isinstance(x, ast.For):
+                loops.append(x)
+        names = {y.id for a in list(n.args) + [k.value for k in n.keywords] for y in ast.walk(a) if isinstance(y, ast.Name)}
+        loops = [lp for lp in loops if names & {y.id for y in ast.walk(lp.target) if isinstance(y, ast.Name)}]
+        if not loops:
+            out.append(n)
+            continue
+        if len(loops) != 1:
+            out.append(n)
+            continue
+        lp = loops[0]
+        okt, table = try_fold(lp.iter, {}, ctx.repo, f.module)
+        if not okt or not isinstance(table, (tuple, list)):
+            out.append(n)
+            continue
+        tnames = [y.id for y in lp.target.elts] if isinstance(lp.target, ast.Tuple) and all(isinstance(y, ast.Name) for y in lp.target.elts) else \
+            ([lp.target.id] if isinstance(lp.target, ast.Name) else None)
+        if tnames is None:
+            out.append(n)
+            continue
+        for row in table:
+            vals = list(row) if isinstance(lp.target, ast.Tuple) and isinstance(row, (tuple, list)) else [row]
+            if len(vals) != len(tnames) or not all(isinstance(v, (str, int, float, bool, type(None))) for v in vals):
+                out.append(n)
+                break
+            env = dict(zip(tnames, vals))
+
+            class R(ast.NodeTransformer):
+                def visit_Name(self, nd):
+                    if nd.id in env and isinstance(nd.ctx, ast.Load):
+                        return ast.copy_location(ast.Constant(value=env[nd.id]), nd)
+                    return nd
+            c2 = R().visit(copy.deepcopy(n))
+            ast.fix_missing_locations(c2)
+            out.append(c2)
+    return out
+
+
 def _expand_dictcomp(ctx: Ctx, fi: FuncInfo, dc: ast.DictComp):
     """{name: getattr(args, name) for name in NAMES} with NAMES a constant tuple of strings, written out as the dict literal it builds"""
     if len(dc.generators) != 1 or dc.generators[0].ifs or not isinstance(dc.generators[0].target, ast.Name):
@@ -530,7 +581,7 @@ def r25(ctx: Ctx) -> RuleReport:
     # 1. argparse destinations
     dests: Dict[str, str] = {}
     mm = ctx.repo.module('penman.__main__')
-    for n in [x for f in mm.functions.values() for x in walk_local(f.node)]:
+    for n in [x for f in mm.functions.values() for x in argparse_calls(ctx, f)]:
         if isinstance(n, ast.Call) and isinstance(n.func, ast.Attribute) and n.func.attr == 'add_argument':
             flags = [a.value for a in n.args if isinstance(a, ast.Constant) and isinstance(a.value, str)]
             dest = next((k.value.value for k in n.keywords if k.arg == 'dest' and isinstance(k.value, ast.Constant)), None)
@@ -1209,7 +1260,7 @@ def r102(ctx: Ctx) -> RuleReport:
             if isinstance(n, ast.Assign) and isinstance(n.value, ast.Call) and isinstance(n.value.func, ast.Attribute) \
                     and n.value.func.attr in ('add_argument_group', 'add_mutually_exclusive_group') and isinstance(n.targets[0], ast.Name):
                 groups[n.targets[0].id] = n.value.func.attr
-        for n in walk_local(f.node):
+        for n in argparse_calls(ctx, f):
             if isinstance(n, ast.Call) and isinstance(n.func, ast.Attribute) and n.func.attr == 'add_argument':
                 flags = []
                 for a in n.args:
